@@ -49,6 +49,9 @@ pub struct Obs {
     pub seed_counter: u64,
     pub ops_seen: HashMap<String, u64>,
     pub count_ops: bool,
+    /// remember the operation of the node being evaluated (to attribute errors and panics)
+    pub track_last: bool,
+    pub last_op: String,
 }
 
 impl Obs {
@@ -74,6 +77,8 @@ impl Obs {
             seed_counter: u64::from_le_bytes(seed[..8].try_into().unwrap()),
             ops_seen: HashMap::new(),
             count_ops: false,
+            track_last: false,
+            last_op: String::new(),
         }
     }
 
@@ -110,6 +115,9 @@ impl Evaluator for Obs {
     fn evaluate_node(&mut self, node: Node, deps: Vec<Value>) -> Result<Value> {
         self.nodes_seen += 1;
         let op = node.get_operation();
+        if self.track_last {
+            self.last_op = format!("{}", op);
+        }
         if self.count_ops {
             *self.ops_seen.entry(format!("{}", op)).or_insert(0) += 1;
         }
